@@ -316,3 +316,17 @@ pub fn cmd_e2e(a: &[&str]) -> String {
         Err(p) => format!("panic {}", crate::panic_msg(&p)),
     }
 }
+
+/// refid <hex bytes of the string>: the real refid_to_u32
+pub fn cmd_refid(a: &[&str]) -> String {
+    let hex = a.get(0).copied().unwrap_or("");
+    let bytes: Vec<u8> = (0..hex.len() / 2).map(|i| u8::from_str_radix(&hex[2 * i..2 * i + 2], 16).unwrap_or(0)).collect();
+    match String::from_utf8(bytes) {
+        Err(_) => "not-utf8".into(),
+        Ok(s) => match std::panic::catch_unwind(|| clock_bound_d::refid_to_u32(&s)) {
+            Ok(Ok(v)) => format!("ok value={}", v),
+            Ok(Err(_)) => "ok refused".into(),
+            Err(p) => format!("panic {}", crate::panic_msg(&p)),
+        },
+    }
+}
